@@ -25,9 +25,7 @@ def ignorePerm (x : M Unit) : M Unit := do
 /-- `chown(from, toName, fs)`: only when the owner differs -/
 def chownTo (side : Side) (src : Info) (toName : Path) : M Unit := do
   let old ← primInfo cfg side (.lstat toName)
-  if old.uid ≠ src.uid || old.gid ≠ src.gid then
-    primUnit cfg side (.chown toName src.uid src.gid)
-  else pure ()
+  whenM (old.uid ≠ src.uid || old.gid ≠ src.gid) (primUnit cfg side (.chown toName src.uid src.gid))
 
 /-- `currentModTime.Equal(targetModTime)`; two times stamped during the case are treated as
 different (the resulting `Chtimes(fresh)` is invisible, see `primCall`) -/
@@ -55,10 +53,8 @@ def copyDir (side : Side) (name : Path) (info : Info) : M Unit := wrapped do
   else
     primUnit cfg side (.mkdirAll name (info.perm &&& 0o777))
     let cur ← primInfo cfg side (.lstat name)
-    if cur.perm ≠ info.perm then primUnit cfg side (.chmod name info.perm) else pure ()
-    if !timeEq cur.mtime info.mtime then
-      ignorePerm (primUnit cfg side (.chtimes name info.mtime info.mtime))
-    else pure ()
+    whenM (cur.perm ≠ info.perm) (primUnit cfg side (.chmod name info.perm))
+    whenM (!timeEq cur.mtime info.mtime) (ignorePerm (primUnit cfg side (.chtimes name info.mtime info.mtime)))
     ignorePerm (chownTo cfg side info name)
 
 /-- 32 KiB chunks of `io.Copy`'s generic loop (ASCII contents: bytes = chars) -/
@@ -92,10 +88,8 @@ def copyFile (side : Side) (name : Path) (info : Info) (src : WHandle) : M Unit 
     writeFile cfg side name info.perm src
     ignorePerm (chownTo cfg side info name)
     let cur ← primInfo cfg side (.lstat name)
-    if cur.perm ≠ info.perm then primUnit cfg side (.chmod name info.perm) else pure ()
-    if !timeEq cur.mtime info.mtime then
-      ignorePerm (primUnit cfg side (.chtimes name info.mtime info.mtime))
-    else pure ()
+    whenM (cur.perm ≠ info.perm) (primUnit cfg side (.chmod name info.perm))
+    whenM (!timeEq cur.mtime info.mtime) (ignorePerm (primUnit cfg side (.chtimes name info.mtime info.mtime)))
 
 /-- `copySymlink(source, target, name, info)` -/
 def copySymlink (source target : Side) (name : Path) (info : Info) : M Unit := wrapped do
@@ -114,7 +108,7 @@ def restoreFile (name : Path) (backupFi : Info) : M Unit := do
     let replaced := match baseFi with
       | some b => !b.isRegular
       | none => false
-    if !fi.isRegular || replaced then primUnit cfg .base (.removeAll name) else pure ()
+    whenM (!fi.isRegular || replaced) (primUnit cfg .base (.removeAll name))
     copyFile cfg .base name backupFi f)
   let _ ← attempt (hClose f)                  -- defer f.Close()
   match r with
@@ -126,9 +120,8 @@ def restoreSymlink (name : Path) (backupFi : Info) : M Unit := do
   match ← lexists cfg .backup name with
   | none => M.throw .notExist
   | some _ =>
-    match ← lexists cfg .base name with
-    | some _ => primUnit cfg .base (.removeAll name)
-    | none => pure ()
+    let cur ← lexists cfg .base name
+    whenM cur.isSome (primUnit cfg .base (.removeAll name))
     copySymlink cfg .backup .base name backupFi
 
 /-- `resolvePathWithInfo`: single pass over the ancestor chain, substituting link targets into
@@ -230,32 +223,34 @@ def tryBackup (resolvedName : Path) : M Unit := do
 
 /-! ### the mutators -/
 
-def create (name : Path) : M WHandle := do
+/-- what every mutator does before it touches the base filesystem:
+`resolvedName, err := fsys.realPath(name)` then `err = fsys.tryBackup(resolvedName)` -/
+def prepare (name : Path) : M Path := do
   let r ← realPath cfg name
   tryBackup cfg r
+  pure r
+
+def create (name : Path) : M WHandle := do
+  let r ← prepare cfg name
   primOpen cfg .base (.create r)
 
 def mkdir (name : Path) (perm : Nat) : M Unit := do
-  let r ← realPath cfg name
-  tryBackup cfg r
+  let r ← prepare cfg name
   primUnit cfg .base (.mkdir r perm)
 
 def mkdirAll (name : Path) (perm : Nat) : M Unit := do
-  let r ← realPath cfg name
-  tryBackup cfg r
+  let r ← prepare cfg name
   primUnit cfg .base (.mkdirAll r perm)
 
 def openFile (name : Path) (flag perm : Nat) : M WHandle := do
   if flag = O_RDONLY then primOpen cfg .base (.openFile name O_RDONLY 0)
   else
-    let r ← realPath cfg name
-    tryBackup cfg r
+    let r ← prepare cfg name
     primOpen cfg .base (.openFile r flag perm)
 
 /-- internal `remove` (lock already held) -/
 def remove (name : Path) : M Unit := do
-  let r ← realPath cfg name
-  tryBackup cfg r
+  let r ← prepare cfg name
   primUnit cfg .base (.remove r)
 
 def worldWalkOps (side : Side) : WalkOps World where
@@ -312,28 +307,23 @@ def rename (oldname newname : Path) : M Unit := do
   primUnit cfg .base (.rename ro rn)
 
 def chmod (name : Path) (mode : Nat) : M Unit := do
-  let r ← realPath cfg name
-  tryBackup cfg r
+  let r ← prepare cfg name
   primUnit cfg .base (.chmod r mode)
 
 def chown (name : Path) (uid gid : Int) : M Unit := do
-  let r ← realPath cfg name
-  tryBackup cfg r
+  let r ← prepare cfg name
   primUnit cfg .base (.chown r uid gid)
 
 def chtimes (name : Path) (atime mtime : Time) : M Unit := do
-  let r ← realPath cfg name
-  tryBackup cfg r
+  let r ← prepare cfg name
   primUnit cfg .base (.chtimes r atime mtime)
 
 def symlink (oldname newname : Path) : M Unit := do
-  let rn ← realPath cfg newname
-  tryBackup cfg rn
+  let rn ← prepare cfg newname
   primUnit cfg .base (.symlink oldname rn)
 
 def lchown (name : Path) (uid gid : Int) : M Unit := do
-  let r ← realPath cfg name
-  tryBackup cfg r
+  let r ← prepare cfg name
   primUnit cfg .base (.lchown r uid gid)
 
 /-! read-only methods: no lock, no resolution, no tracking -/
@@ -429,12 +419,41 @@ def classify : List (Path × Option Info) → RollbackPlan → M RollbackPlan
 
 def infoFor (infos : List (Path × Option Info)) (p : Path) : Option Info := (infos.lookup p).join
 
+/-- one step of `tryRestoreDirPaths` -/
+def restoreDirAct (infos : List (Path × Option Info)) (p : Path) : M Unit := do
+  -- a file or symlink that took the place of the directory has to make room
+  let cur ← lexists cfg .base p
+  whenM (match cur with
+    | some fi => !fi.isDir
+    | none => false) (primUnit cfg .base (.remove p))
+  match infoFor infos p with
+  | some i => copyDir cfg .base p i
+  | none => pure ()
+
+/-- one step of `tryRestoreFilePaths` -/
+def restoreFileAct (infos : List (Path × Option Info)) (p : Path) : M Unit :=
+  match infoFor infos p with
+  | some i => restoreFile cfg p i
+  | none => pure ()
+
+/-- one step of `tryRestoreSymlinkPaths` -/
+def restoreLinkAct (infos : List (Path × Option Info)) (p : Path) : M Unit :=
+  match infoFor infos p with
+  | some i => restoreSymlink cfg p i
+  | none => pure ()
+
+/-- one step of `tryRemoveBasePaths` -/
+def removeBaseAct (p : Path) : M Unit := primUnit cfg .base (.remove p)
+
+/-- one step of `tryRemoveBackupPaths` -/
+def cleanupAct (p : Path) : M Unit := do
+  match ← lexists cfg .backup p with
+  | none => pure ()
+  | some _ => primUnit cfg .backup (.remove p)
+
 /-- `tryRemoveBackupPaths` -/
 def removeBackupPaths (paths : List Path) : M Bool :=
-  forEachCollect (fun p => do
-    match ← lexists cfg .backup p with
-    | none => pure ()
-    | some _ => primUnit cfg .backup (.remove p)) (sortMost paths)
+  forEachCollect (cleanupAct cfg) (sortMost paths)
 
 /-- `Rollback()`: returns whether an error was reported (always wrapped in ErrRollbackFailed) -/
 def rollback : M Bool := do
@@ -442,29 +461,15 @@ def rollback : M Bool := do
   let infos := w.infos
   let pl ← classify cfg infos {}
   -- `multiErr = errors.Join(err)`: a failure here *replaces* what the first loop collected
-  let e1 ← forEachCollect (fun p => primUnit cfg .base (.remove p)) (sortMost pl.removeBase)
-  let failed0 := if e1 then true else pl.failed
-  let e2 ← forEachCollect (fun p => do
-    -- a file or symlink that took the place of the directory has to make room
-    match ← lexists cfg .base p with
-    | some fi => if !fi.isDir then primUnit cfg .base (.remove p) else pure ()
-    | none => pure ()
-    match infoFor infos p with
-    | some i => copyDir cfg .base p i
-    | none => pure ()) (sortLeast pl.dirs)
-  let e3 ← forEachCollect (fun p =>
-    match infoFor infos p with
-    | some i => restoreFile cfg p i
-    | none => pure ()) (sortStrings pl.files)
-  let e4 ← forEachCollect (fun p =>
-    match infoFor infos p with
-    | some i => restoreSymlink cfg p i
-    | none => pure ()) (sortStrings pl.links)
+  let e1 ← forEachCollect (removeBaseAct cfg) (sortMost pl.removeBase)
+  let e2 ← forEachCollect (restoreDirAct cfg infos) (sortLeast pl.dirs)
+  let e3 ← forEachCollect (restoreFileAct cfg infos) (sortStrings pl.files)
+  let e4 ← forEachCollect (restoreLinkAct cfg infos) (sortStrings pl.links)
   let e5 ← removeBackupPaths cfg pl.links
   let e6 ← removeBackupPaths cfg pl.files
   let e7 ← removeBackupPaths cfg pl.dirs
   modifyW (fun w => { w with infos := [] })
-  pure (failed0 || e2 || e3 || e4 || e5 || e6 || e7)
+  pure ((if e1 then true else pl.failed) || e2 || e3 || e4 || e5 || e6 || e7)
 
 end BackupFS
 end BFS
